@@ -9,6 +9,7 @@ import (
 	"github.com/internetarchive/Zeno/internal/pkg/log"
 	"github.com/internetarchive/Zeno/internal/pkg/postprocessor/domainscrawl"
 	"github.com/internetarchive/Zeno/internal/pkg/postprocessor/sitespecific/reddit"
+	"github.com/internetarchive/Zeno/internal/pkg/verifhook"
 	"github.com/internetarchive/Zeno/pkg/models"
 )
 
@@ -27,6 +28,7 @@ func postprocessItem(item *models.Item) []*models.Item {
 	}
 
 	logger.Debug("postprocessing item", "item_id", item.GetShortID())
+	verifhook.Obs("post.item", item)
 
 	// Verify if there is any redirection
 	if isStatusCodeRedirect(item.GetURL().GetResponse().StatusCode) {
